@@ -195,7 +195,8 @@ impl<T: Clone + Default> Vec1<T> for ProbeOut<T> {
     /// the trusted collector: observes the whole forward pass of the iterator it is handed
     fn collect_from_trusted<I: TrustedLen<Item = T>>(mut iter: I) -> Self {
         let first = iter.size_hint();
-        let cap = first.1.unwrap_or(first.0).saturating_add(4096);
+        // absolute cap: an iterator announcing an absurd length must not make the harness loop for ever
+        let cap = first.1.unwrap_or(first.0).saturating_add(4096).min(100_000);
         let mut hints = vec![];
         let mut data = vec![];
         loop {
